@@ -19,7 +19,8 @@ import verif
 PROPERTY = "C17"
 META = {
     "level_text": "TLC checks the clauses of C17 (legal transitions, function order, stopping-iff-started, context cancelled before stopping, "
-                  "exact waiter latches, no double close, first error wins, listener order, notifier never blocks, no nil cancel call; manager: "
+                  "exact waiter latches, no double close, first error wins, listener order, notifier never blocks, no nil cancel call, the service "
+                  "context exists from the moment the service is observably Starting (StartAsync is one critical section); manager: "
                   "healthy/stopped exact, failure reported once - also to listeners added late or removed -, latches; failure watcher: reported "
                   "at most once, never on the closed channel, Close returns if somebody reads) exhaustively on Service.tla (one service, 2 "
                   "StopAsync callers as two critical sections each, listeners, waiters, parent cancel, every function outcome, nil functions, "
@@ -27,15 +28,21 @@ META = {
                   "FailureWatcher.tla. The code is bound to the specification in both directions: every transition of the gate-granularity state "
                   "graphs (built from the same operators) is replayed on real BasicService / NewIdleService / NewTimerService (gated iteration "
                   "function under the bubble clock) / Manager / FailureWatcher objects inside testing/synctest with the observable state "
-                  "compared after every step, and traces of free-running goroutines racing the API are accepted by TLC, which infers the "
-                  "unlogged critical sections.",
+                  "compared after every step (every replayed StartAsync is overlapped by an observer goroutine started from the Done method of "
+                  "the parent context, the one call-back StartAsync makes inside its critical section: what it sees must satisfy "
+                  "ContextOnceStarted), and traces of free-running goroutines racing the API (the parent context yields the processor inside "
+                  "StartAsync so that the racing calls overlap it) are accepted by TLC, which infers the unlogged critical sections.",
     "level_note": "Trusted: TLC; the harness gates (service functions, timer iteration, listener callbacks, the verif hook between the two "
                   "critical sections of StopAsync); testing/synctest quiescence; the projection of the API (State, FailureCase, ServiceContext, "
                   "Await* results, callback logs, Chan()) onto the specification's observation. Bounded: <=2 racing StopAsync callers (4 in "
                   "traces), <=2 listeners, 2 waiters, <=3 timer ticks, managers of <=3 services (abstract services at delivery granularity), "
                   "failure watchers over 3 services. A listener-channel buffer smaller than 4 is decided on the specification only (not "
                   "observable through the API). FailureWatcher.Close blocking while a report is pending and nobody reads is specified and "
-                  "expected as a named behaviour, not judged.",
+                  "expected as a named behaviour, not judged. The observer that overlaps StartAsync is one-sided: it reports only what it "
+                  "really read (no false alarm is possible while StartAsync holds the lock), and it notices a split StartAsync only if the Go "
+                  "scheduler runs it within 32 yields. Not bound: the convenience helpers StartAndAwaitRunning / StopAndAwaitTerminated / "
+                  "StartManagerAndAwaitHealthy / StopManagerAndAwaitStopped / DescribeService and the NewListener adapter (thin wrappers "
+                  "over the bound calls).",
     "technique": "TLA+ specifications model-checked by TLC; TLC-generated behaviours replayed into the real code (path cover of the gated "
                  "state graphs); traces recorded from the real code validated by TLC",
     "design_ref": "DESIGN.md 2 C17",
@@ -55,6 +62,7 @@ GATED = {
     "MC_gated_nilfn": dict(nc=1, nl=1, wrun=[], wterm=[]),
     "MC_gated_lw": dict(nc=1, nl=1, wrun=[1], wterm=[2]),
     "MC_gated_l2": dict(nc=1, nl=2, wrun=[], wterm=[]),
+    "MC_gated_start2": dict(nc=1, nl=0, wrun=[], wterm=[]),      # a second StartAsync in every state of the service
 }
 MGATED = {
     "MC_mgated_cover": dict(ns=2, nml=0, wh=[], ws=[]),
@@ -142,6 +150,7 @@ def run(ctx):
         # F4: MC_nilcancel.cfg (thorough tier) is the explicit TLC run in which the specification of StopAsync as it is in the
         # pinned code violates NoNilCancelCall; its counterexample is replayed. The quick tier takes the same witness from the
         # behaviours of MC_gated_core (a printed state with nilCalls > 0 is a counterexample of the invariant).
+        # (MC_gated_start2 - a second StartAsync in every state, NC=1 - is prepared but not yet part of a tier: not measured)
         gated = ["MC_gated_core", "MC_gated_modes", "MC_gated_wait", "MC_gated_nilfn"] if quick else \
                 ["MC_gated_core", "MC_gated_modes", "MC_gated_timer3", "MC_gated_timer_w", "MC_gated_wait", "MC_gated_nilfn5", "MC_gated_lw", "MC_gated_l2"]
         mg = [("MC_mgated_one", None, None), ("MC_mgated_cover" if quick else "MC_mgated_cover1", None, None), ("MC_mgated_sim", "num=%d" % (40 if quick else 400), 40)]
